@@ -21,6 +21,7 @@ import (
 	"strings"
 	"sync"
 
+	"google.golang.org/protobuf/proto"
 	"google.golang.org/protobuf/reflect/protoreflect"
 
 	"github.com/smart-core-os/sc-golang/verifharness/cmd/c05/mt"
@@ -163,4 +164,82 @@ func invalidKind(md protoreflect.MessageDescriptor, path string) string {
 		return "unknown-segment"
 	}
 	return "invalid"
+}
+
+// populateAlong makes the message hold data where a path runs into it (the no-panic clause is about
+// masks that meet populated fields): it walks the segments through singular messages, creating them,
+// and populates the first field that is not one.  For a string-keyed map that the path continues
+// through, half of the time an entry is stored under the very name the path continues with (a map
+// holding the key "value" or "key").
+func populateAlong(g *mt.Gen, m protoreflect.Message, path string) {
+	segs := mt.Segs(path)
+	for i, s := range segs {
+		fd := m.Descriptor().Fields().ByName(protoreflect.Name(s))
+		if fd == nil {
+			return
+		}
+		if fd.Message() != nil && !fd.IsList() && !fd.IsMap() {
+			m = m.Mutable(fd).Message()
+			continue
+		}
+		g.Populate(m, fd, 2)
+		if fd.IsMap() && fd.MapKey().Kind() == protoreflect.StringKind && i+1 < len(segs) && segs[i+1] != "" && g.R.Intn(2) == 0 {
+			mp := m.Mutable(fd).Map()
+			var v protoreflect.Value
+			mp.Range(func(_ protoreflect.MapKey, x protoreflect.Value) bool { v = x; return false })
+			if v.IsValid() {
+				if fd.MapValue().Message() != nil {
+					v = protoreflect.ValueOfMessage(proto.Clone(v.Message().Interface()).ProtoReflect())
+				}
+				mp.Set(protoreflect.ValueOfString(segs[i+1]).MapKey(), v)
+			}
+		}
+		return
+	}
+}
+
+// corruptSweep: WithReadPaths handed one corruption of the family each — every path of every kind of
+// every root when all is set, n draws (kind first) otherwise — alone, after a mask, or next to a valid
+// path and followed by WithReadMask(nil); mostly at ComputeReadConfig, the rest at the reading sites.
+func corruptSweep(g *mt.Gen, n int, all bool) []ocase {
+	var out []ocase
+	one := func(r root, bad string) {
+		md := r.MD()
+		msg := g.Msg(md, r.New, g.Focus(md, 2))
+		populateAlong(g, msg.ProtoReflect(), bad)
+		c := ocase{Root: r.Name, Site: "ComputeReadConfig", Msg: mt.EncodeMsg(msg), MsgText: mt.CanonMsg(msg)}
+		if g.R.Intn(4) == 0 {
+			c.Site = optionSites[1+g.R.Intn(len(optionSites)-2)] // not NewResponseFilter
+		}
+		valid := g.MaskFrom(g.Focus(md, 2), mt.PathOpts{Corrupt: 0})
+		switch g.R.Intn(3) {
+		case 0:
+			c.Options = []string{"P/" + bad}
+		case 1:
+			c.Options = []string{"M" + valid.Enc(), "P/" + bad}
+		default:
+			c.Options = []string{"P" + valid.Enc() + "/" + bad, "M~"}
+		}
+		out = append(out, c)
+	}
+	if all {
+		for _, r := range roots {
+			f := corruptionsOf(r.MD())
+			for _, k := range f.Kinds {
+				for _, p := range f.ByKind[k] {
+					one(r, p)
+				}
+			}
+		}
+		return out
+	}
+	for i := 0; i < n; i++ {
+		r := roots[0]
+		if i%4 == 3 {
+			r = roots[1+g.R.Intn(len(roots)-1)]
+		}
+		bad, _ := corruptionsOf(r.MD()).draw(g)
+		one(r, bad)
+	}
+	return out
 }
